@@ -209,7 +209,7 @@ def run(F, R, tier):
     R.rule("R4", "every function of the THDM one-/two-loop and uncertainty code is dimensionally consistent and "
                  "dimensionless (a_mu is a function of mass ratios: prerequisite of the (v/M)^2 decoupling)", 60)
     loopfn = re.compile(r"^gm2calc::(thdm::)?(\(anonymous namespace\)::)?(Fa|Fb|Ixyz|F1C|F2C|F3C|F4C|F1N|F2N|F3N|F4N|G3|G4|"
-                        r"f_PS|f_S|f_sferm|dilog|Phi|lambda_2|FPZ|FSZ|FCWl|FCWu|FCWd|f_CSl|f_CSd|f_CSu|is_equal_rel|"
+                        r"f_PS|f_S|f_sferm|dilog|Phi|Phi_over_lambda_2|lambda_2|FPZ|FSZ|FCWl|FCWu|FCWd|f_CSl|f_CSd|f_CSu|is_equal_rel|"
                         r"is_equal|is_zero|sort|shift)$")
     files = ("src/THDM/gm2_1loop_H.cpp", "src/THDM/gm2_2loop_B.cpp", "src/THDM/gm2_2loop_F.cpp", "src/THDM/gm2_uncertainty.cpp")
     rd = {"calc_v2": Fr(2)}
